@@ -507,4 +507,55 @@ class ShippedTemplates(object):
         return 'ok', vs, 1
 
 
-FAMILIES = [Tables(), Lists(), Compliance(), ImportSpellings(), NamesOfEarlierImports(), ShippedTemplates()]
+class Smiv1ForeignMembers(object):
+    name = 'smiv1-members-from-the-old-base-modules'
+    describe = ('an SMIv1 module importing, in one FROM RFC1213-MIB (RFC1158-MIB) clause, objects that moved to an SMIv2 module '
+                '(ifIndex, sysDescr ...) and objects that stayed (ipRouteDest, atIfIndex, egpNeighAddr ...), in either order, and '
+                'using them ONLY as INDEX members of a row and as VARIABLES of a trap: every member keeps its order and is '
+                'attributed to the module that defines it (the new home resp. RFC1213-MIB); JSON')
+
+    MOVED = ['ifIndex', 'sysDescr', 'ipForwarding']
+    KEPT = {'RFC1213-MIB': ['ipRouteDest', 'atIfIndex'], 'RFC1158-MIB': ['snmpInBadTypes']}
+
+    def blocks(self, tier):
+        return [{'v1': v} for v in sorted(self.KEPT)]
+
+    def cases(self, block, tier):
+        for moved in self.MOVED:
+            for kept in self.KEPT[block['v1']]:
+                for order in (0, 1):
+                    yield {'v1': block['v1'], 'moved': moved, 'kept': kept, 'order': order}
+
+    def run_case(self, case):
+        from mc.checks import C16
+        from mc import v1stubs
+        v1, moved, kept = case['v1'], case['moved'], case['kept']
+        home = v1stubs.expected_home(v1, moved)
+        names = [moved, kept] if case['order'] == 0 else [kept, moved]
+        text = ('V1TEST-MIB DEFINITIONS ::= BEGIN\nIMPORTS enterprises FROM RFC1155-SMI OBJECT-TYPE FROM RFC-1212 TRAP-TYPE FROM RFC-1215\n'
+                '    %s FROM %s;\nroot OBJECT IDENTIFIER ::= { enterprises 4242 }\n'
+                'tTable OBJECT-TYPE SYNTAX SEQUENCE OF TEntry ACCESS not-accessible STATUS mandatory DESCRIPTION "d" ::= { root 1 }\n'
+                'tEntry OBJECT-TYPE SYNTAX TEntry ACCESS not-accessible STATUS mandatory DESCRIPTION "d" INDEX { %s } ::= { tTable 1 }\n'
+                'TEntry ::= SEQUENCE { tVal INTEGER }\n'
+                'tVal OBJECT-TYPE SYNTAX INTEGER ACCESS read-only STATUS mandatory DESCRIPTION "d" ::= { tEntry 1 }\n'
+                'tTrap TRAP-TYPE ENTERPRISE root VARIABLES { %s, tVal } DESCRIPTION "d" ::= 3\nEND\n' % (
+                    ', '.join(names), v1, ', '.join(names), ', '.join(reversed(names))))
+        res, written = C16.compile_v({'V1TEST-MIB': text}, ['V1TEST-MIB'], 'json')
+        sig = 'C06|smiv1-members|%s|%s+%s' % (v1, moved, kept)
+        if res.get('V1TEST-MIB') != 'compiled':
+            return 'failed', [('%s|not-compiled' % sig, '%r\n%s' % (getattr(res.get('V1TEST-MIB'), 'error', None), text))], 1
+        doc = json.loads(written['V1TEST-MIB'])
+        where = {moved: home[0], kept: v1stubs.expected_home(v1, kept)[0] if v1stubs.expected_home(v1, kept) else v1}
+        vs = []
+        got = [(i.get('module'), i.get('object')) for i in doc.get('tEntry', {}).get('indices', [])]
+        want = [(where[n], n) for n in names]
+        if got != want:
+            vs.append(('%s|index-members-differ' % sig, 'INDEX %r, expected %r\n%s' % (got, want, text)))
+        got = [(o.get('module'), o.get('object')) for o in doc.get('tTrap', {}).get('objects', [])]
+        want = [(where[n], n) for n in reversed(names)] + [('V1TEST-MIB', 'tVal')]
+        if got != want:
+            vs.append(('%s|trap-variables-differ' % sig, 'VARIABLES %r, expected %r\n%s' % (got, want, text)))
+        return 'ok' if not vs else 'bad', vs, 1
+
+
+FAMILIES = [Tables(), Lists(), Compliance(), ImportSpellings(), NamesOfEarlierImports(), ShippedTemplates(), Smiv1ForeignMembers()]
